@@ -28,7 +28,9 @@ if __name__ == "__main__":
     verbose = "-v" in sys.argv
     flt = args[0] if args else ""
     diffs = sorted(d for d in glob.glob("/verif/neutral/*.diff") if flt in os.path.basename(d))
-    with ProcessPoolExecutor(max_workers=16) as ex:
+    import multiprocessing
+    # workers are recycled: the interning tables of the value forms grow with every analysed variant (a worker that ran 300 of them held 7 GB)
+    with ProcessPoolExecutor(max_workers=12, mp_context=multiprocessing.get_context("spawn"), max_tasks_per_child=24) as ex:
         res = list(ex.map(one, [(d, p) for d in diffs for p in PROPS], chunksize=2))
     tot = 0
     for d in diffs:
